@@ -38,6 +38,7 @@ type Kernel struct {
 	// strategy
 	strategy  int // 0 replay/lowest, 1 uniform, 2 pct
 	rng       uint64
+	prioSeed  uint64
 	prio      [maxTasks]int64
 	change    [8]int
 	nchange   int
@@ -61,6 +62,12 @@ type Kernel struct {
 	// tasks at their first schedule point
 	adoptSpawned bool
 	adoptMu      sync.Mutex
+
+	// adopted tasks: the resource (connection / listener task) they were first
+	// seen operating on, or -1; candidates are ordered by it, not by the order
+	// in which the goroutines happened to arrive
+	spawned [maxTasks]bool
+	hint    [maxTasks]int
 
 	// writers waiting per mutex (see VerifPending in the instrumented copy)
 	pendID [32]any
@@ -117,6 +124,7 @@ func splitmix(s *uint64) uint64 {
 // Configure installs the schedule strategy from the case.
 func (k *Kernel) Configure(sc *SchedCase, seed uint64) {
 	k.rng = seed ^ 0x5851f42d4c957f2d
+	k.prioSeed = seed ^ 0x2545f4914f6cdd1d
 	if sc == nil {
 		return
 	}
@@ -193,7 +201,7 @@ func (k *Kernel) Yield(task int, point string) {
 		// the operation is performed on this task's connection by another
 		// goroutine (e.g. a Close caller closing the socket): it is a schedule
 		// point of the goroutine that performs it
-		k.YieldHook(point)
+		k.yieldAs(point, task)
 		return
 	}
 	k.park(task, point)
@@ -247,7 +255,7 @@ func (k *Kernel) Pending(id any, op int) bool {
 // such goroutines did before).
 //
 //go:norace
-func (k *Kernel) adopt(id uint64) int {
+func (k *Kernel) adopt(id uint64, hint int) int {
 	raceDisable()
 	defer raceEnable()
 	k.adoptMu.Lock()
@@ -263,6 +271,11 @@ func (k *Kernel) adopt(id uint64) int {
 	t := k.ntasks
 	k.name[t] = "spawned"
 	k.goid[t] = id
+	k.spawned[t] = true
+	k.hint[t] = hint
+	// (its PCT priority follows from what it operates on, not from its slot)
+	h := k.prioSeed ^ (uint64(hint+2) * 0x9e3779b97f4a7c15)
+	k.prio[t] = int64(splitmix(&h)>>2) + 1000
 	k.adopted++
 	k.ntasks = t + 1
 	return t
@@ -291,7 +304,13 @@ func (k *Kernel) StartTask(task int, point string) {
 // goroutine id.
 //
 //go:norace
-func (k *Kernel) YieldHook(point string) {
+func (k *Kernel) YieldHook(point string) { k.yieldAs(point, -1) }
+
+// yieldAs parks the calling goroutine's task at point; a goroutine that is no
+// task yet is adopted (hint: the task of the resource it operates on, or -1).
+//
+//go:norace
+func (k *Kernel) yieldAs(point string, hint int) {
 	if !k.enabled || k.killed {
 		return
 	}
@@ -308,8 +327,13 @@ func (k *Kernel) YieldHook(point string) {
 			return
 		}
 	}
-	if k.adoptSpawned {
-		if t := k.adopt(id); t >= 0 {
+	// (only at an operation on a simulated connection or listener: there the
+	// goroutine has an identity that does not depend on arrival order - what it
+	// operates on. A goroutine first seen at a bare synchronisation point could
+	// be told from its twin only by arrival order, which the simulator does not
+	// control; it passes, as all such goroutines did before adoption existed.)
+	if k.adoptSpawned && hint >= 0 {
+		if t := k.adopt(id, hint); t >= 0 {
 			k.park(t, point)
 		}
 	}
@@ -385,9 +409,6 @@ func (k *Kernel) LockHook(try func() bool, lock func(), point string) {
 			break
 		}
 	}
-	if task < 0 && k.adoptSpawned {
-		task = k.adopt(id)
-	}
 	if task < 0 {
 		lock()
 		return
@@ -459,6 +480,14 @@ func (k *Kernel) Run(stop func() bool) int {
 			cand[nc] = t
 			nc++
 		}
+		// adopted tasks come in the order of what they operate on (and where they
+		// are parked), whatever order their goroutines arrived in
+		for i := 1; i < nc; i++ {
+			for j := i; j > 0 && k.spawned[cand[j]] && k.spawned[cand[j-1]] &&
+				(k.hint[cand[j]] < k.hint[cand[j-1]] || (k.hint[cand[j]] == k.hint[cand[j-1]] && k.point[cand[j]] < k.point[cand[j-1]])); j-- {
+				cand[j], cand[j-1] = cand[j-1], cand[j]
+			}
+		}
 		if nc == 0 && nheld > 0 {
 			// the awaited task cannot run: release the held ones
 			k.holdsForced++
@@ -491,7 +520,11 @@ func (k *Kernel) Run(stop func() bool) int {
 			k.epoch++
 		}
 		pt := k.point[t]
-		k.trace = (k.trace ^ uint64(t+1)) * 1099511628211
+		tid := uint64(t + 1)
+		if k.spawned[t] {
+			tid = uint64(1000 + k.hint[t] + 2)
+		}
+		k.trace = (k.trace ^ tid) * 1099511628211
 		for i := 0; i < len(pt); i++ {
 			k.trace = (k.trace ^ uint64(pt[i])) * 1099511628211
 		}
